@@ -1,8 +1,166 @@
-import ErdosVerif.Driver.Util
-namespace ErdosVerif.Driver.MipTetri
-open Lean ErdosVerif.Driver
+/-
+Driver for suite "mip_tetri": one case = one TetriSched invocation (Gurobi or CPLEX
+back-end, selected by `inst.cplex`).
 
-/-- Suite handler: one JSON case in, one JSON reply out (stub until the suite is built). -/
-def handle (_j : Json) : Json := Json.mkObj [("protocol_error", Json.str "suite-not-built")]
+in : {"suite":"mip_tetri","inst":{…},"sigma":{"<label>":int,…}|null,"model":bool}
+out: {"nomodel":bool, "den":D, "scaled":[labels],
+      "vars":[…],"constrs":[…],"obj":{…},               -- `gen inst`, rendered with the code's names
+      "sat":bool,"violated":[names],"decode":[…],"objval":int,   -- when sigma is given
+      "addable":[[task,w,k,s],…], "bound":int,            -- C14: cells that could still be added
+      "decode_fail":[…],"decode_nomodel":[…],"wf":bool}
+
+The model is integral: the objective and the rows whose JSON carries `"den": D` are the
+real ones multiplied by `D`; a variable listed in `"scaled"` stands for `D ·` the real
+(continuous) variable.  Variable labels are `name#k` (k-th variable of that name in
+creation order), the labelling the harness applies to the captured model.
+-/
+import ErdosVerif.Driver.Util
+import ErdosVerif.Model.Tetri
+import ErdosVerif.Model.TetriSpec
+namespace ErdosVerif.Driver.MipTetri
+open Lean ErdosVerif.Driver ErdosVerif.Mip ErdosVerif.Tetri
+
+def parsePairs (j : Json) (k : String) : Except String (List (String × Nat)) := do
+  let l ← fldArr j k
+  mapM' (fun e => do
+    let a ← e.getArr?
+    match a.toList with
+    | [n, q] => return ((← n.getStr?), (← q.getNat?))
+    | _ => throw "bad-pair") l
+
+def parseStrat (j : Json) : Except String Strat := do
+  return { runtime := ← fldNat j "runtime", req := ← parsePairs j "req" }
+
+def parseState (s : String) : TState :=
+  match s with
+  | "VIRTUAL" => .virtual
+  | "RELEASED" => .released
+  | "SCHEDULED" => .scheduled
+  | "RUNNING" => .running
+  | _ => .other
+
+def parseTask (j : Json) : Except String TaskI := do
+  let strats ← mapM' parseStrat (← fldArr j "strats")
+  return { uniq := ← fldStr j "uniq", name := ← fldStr j "name", ts := ← fldInt j "ts",
+           graph := ← fldStr j "graph", state := parseState (← fldStr j "state"),
+           release := ← fldInt j "release", deadline := ← fldInt j "deadline", strats := strats,
+           prevW := ← fldNat j "prevW", prevS := ← fldNat j "prevS", remaining := ← fldNat j "remaining" }
+
+def parseWorker (j : Json) : Except String WorkerI := do
+  return { name := ← fldStr j "name", pool := ← fldStr j "pool", res := ← parsePairs j "res" }
+
+def parseNode (j : Json) : Except String Node := do
+  return { uniq := ← fldStr j "uniq", name := ← fldStr j "name", ts := ← fldInt j "ts",
+           graph := ← fldStr j "graph" }
+
+def parseEdge (j : Json) : Except String (String × String) := do
+  let a ← j.getArr?
+  match a.toList with
+  | [p, c] => return ((← p.getStr?), (← c.getStr?))
+  | _ => throw "bad-edge"
+
+def parseInst (j : Json) : Except String Inst := do
+  return { cplex := ← fldBool j "cplex",
+           now := ← fldInt j "now",
+           disc := ← fldNat j "disc",
+           planAheadOpt := ← fldInt j "plan_ahead",
+           workers := ← mapM' parseWorker (← fldArr j "workers"),
+           tasks := ← mapM' parseTask (← fldArr j "tasks"),
+           nOffered := ← fldNat j "nOffered",
+           nodes := ← mapM' parseNode (← fldArr j "nodes"),
+           edges := ← mapM' parseEdge (← fldArr j "edges"),
+           enforceDeadlines := ← fldBool j "enforce_deadlines",
+           retract := ← fldBool j "retract",
+           releaseTaskgraphs := ← fldBool j "release_taskgraphs" }
+
+/-- `name#k` labels in declaration order. -/
+def labels (I : Inst) (m : Model Var) : List (Var × String) :=
+  let rec go (ds : List (VarDecl Var)) (seen : List String) (acc : List (Var × String)) : List (Var × String) :=
+    match ds with
+    | [] => acc.reverse
+    | d :: ds =>
+      let n := I.varName d.v
+      let k := (seen.filter (· == n)).length
+      go ds (n :: seen) ((d.v, s!"{n}#{k}") :: acc)
+  go m.vars [] []
+
+def labelOf (I : Inst) (ls : List (Var × String)) (v : Var) : String :=
+  match ls.find? (fun p => p.1 == v) with
+  | some p => p.2
+  | none => s!"UNDECLARED:{I.varName v}"
+
+def jLin (lab : Var → String) (e : LinExpr Var) : Json :=
+  Json.mkObj [("t", jList (fun (p : Int × Var) => Json.arr #[jInt p.1, Json.str (lab p.2)]) e.terms),
+              ("c", jInt e.const)]
+
+def jSense : Sense → Json
+  | .le => Json.str "<"
+  | .ge => Json.str ">"
+  | .eq => Json.str "="
+
+def jConstr (I : Inst) (lab : Var → String) : Constr Var → Json
+  | .lin n e s rhs =>
+    Json.mkObj ([("kind", Json.str "lin"), ("name", Json.str n), ("e", jLin lab e), ("sense", jSense s), ("rhs", jInt rhs)] ++
+      (if I.scaledRow n then [("den", jNat I.den)] else []))
+  | .quad n _ _ _ => Json.mkObj [("kind", "quad"), ("name", n)]
+  | .ind n b val e s rhs => Json.mkObj [("kind", "ind"), ("name", n), ("b", Json.str (lab b)), ("val", jInt val),
+      ("e", jLin lab e), ("sense", jSense s), ("rhs", jInt rhs)]
+  | .and n r args => Json.mkObj [("kind", "and"), ("name", n), ("r", Json.str (lab r)), ("args", jList (fun a => Json.str (lab a)) args)]
+
+def jDecl (lab : Var → String) (d : VarDecl Var) : Json :=
+  Json.mkObj [("name", Json.str (lab d.v)),
+              ("vtype", Json.str (match d.vtype with | .bin => "B" | .int => "I")),
+              ("lb", jOptInt d.lb), ("ub", jOptInt d.ub)]
+
+def jDecision (I : Inst) (d : Decision) : Json :=
+  match d.out with
+  | .unplaced => Json.mkObj [("task", Json.str (I.tname d.task)), ("kind", "unplaced")]
+  | .cancel => Json.mkObj [("task", Json.str (I.tname d.task)), ("kind", "cancel")]
+  | .placed w s t => Json.mkObj [("task", Json.str (I.tname d.task)), ("kind", "placed"),
+      ("worker", jNat w), ("pool", Json.str (I.worker w).pool), ("strategy", jNat s), ("time", jInt t)]
+
+def sigmaOf (ls : List (Var × String)) (j : Json) : Var → Int := fun v =>
+  match ls.find? (fun p => p.1 == v) with
+  | none => 0
+  | some p => match j.getObjVal? p.2 >>= Json.getInt? with
+    | .ok n => n
+    | .error _ => 0
+
+def jCell (I : Inst) (c : Nat × Nat × Nat × Nat) : Json :=
+  Json.arr #[Json.str (I.tname c.1), jNat c.2.1, jInt (I.slot c.2.2.1), jNat c.2.2.2]
+
+def handleE (j : Json) : Except String Json := do
+  let I ← parseInst (← fld j "inst")
+  let fixed : List (String × Json) :=
+    [("nomodel", Json.bool I.noModel), ("wf", Json.bool I.wf),
+     ("acyclic", Json.bool (TetriSpec.wfAcyclic I)),
+     ("decode_fail", jList (jDecision I) (decodeFail I)),
+     ("decode_nomodel", jList (jDecision I) (decodeNoModel I))]
+  if I.noModel then return Json.mkObj fixed
+  let m := gen I
+  let ls := labels I m
+  let lab := labelOf I ls
+  let wantModel := (fldBool j "model").toOption.getD true
+  let base : List (String × Json) :=
+    if wantModel then
+      [("vars", jList (jDecl lab) m.vars), ("constrs", jList (jConstr I lab) m.constrs),
+       ("obj", jLin lab m.obj.lin), ("den", jNat I.den),
+       ("scaled", jList (fun v => Json.str (lab v)) I.scaledVars),
+       ("bound", jInt (TetriSpec.objBound I))]
+    else []
+  let withSigma : List (String × Json) :=
+    match fldOpt j "sigma" with
+    | none => []
+    | some sj =>
+      let σ := sigmaOf ls sj
+      [("sat", Json.bool (decide (sat σ m))),
+       ("violated", jList Json.str ((m.vars.filter (fun d => !decide (d.ok σ))).map (fun d => "domain:" ++ lab d.v) ++ violated σ m)),
+       ("decode", jList (jDecision I) (decode I σ)),
+       ("objval", jInt (objective σ m)),
+       ("plan_valid", Json.bool (TetriSpec.validB I (TetriSpec.planOf I σ))),
+       ("addable", jList (jCell I) (TetriSpec.addable I (TetriSpec.planOf I σ)))]
+  return Json.mkObj (fixed ++ base ++ withSigma)
+
+def handle (j : Json) : Json := guardE (handleE j)
 
 end ErdosVerif.Driver.MipTetri
